@@ -582,3 +582,137 @@ func init() {
 	addMutant(Mutant{Prop: "C04", Name: "method-call-bypasses-emitdo", File: "cl/instr.go",
 		Old: "\t\tret = p.emitDo(b, act, ds, fn, llssa.Builder.Call, args...)\n\t\treturn\n\t}\n\tkind := p.funcKind(cv)", New: "\t\tret = b.Do(act, fn, llssa.Builder.Call, args...)\n\t\treturn\n\t}\n\tkind := p.funcKind(cv)", Expect: "R04.8"})
 }
+
+// checkSliceDataLenPairs (R19.8): a Go slice handed to the Python C API is (data pointer, LENGTH).
+func checkSliceDataLenPairs(c *Ctx, sp *packages.Package) {
+	c.Rule("R19.8", "every slice passed to the Python C API is described by its data pointer and its length (never its capacity)", 1)
+	info := sp.TypesInfo
+	n := 0
+	for _, fd := range allFuncs(sp) {
+		if fileOf(c.fset, fd.Pos()) != "python.go" {
+			continue
+		}
+		for _, call := range callsIn(fd.Body) {
+			var data, lens, caps []string
+			for _, a := range call.Args {
+				if inner, ok := ast.Unparen(a).(*ast.CallExpr); ok && len(inner.Args) == 1 {
+					if f := calleeOf(info, inner); f != nil {
+						switch f.Name() {
+						case "SliceData":
+							data = append(data, exprStr(inner.Args[0]))
+						case "SliceLen":
+							lens = append(lens, exprStr(inner.Args[0]))
+						case "SliceCap":
+							caps = append(caps, exprStr(inner.Args[0]))
+						}
+					}
+				}
+			}
+			for _, d := range data {
+				n++
+				hasLen, hasCap := false, false
+				for _, l := range lens {
+					hasLen = hasLen || l == d
+				}
+				for _, k := range caps {
+					hasCap = hasCap || k == d
+				}
+				c.Check(hasLen && !hasCap, "R19.8", fmt.Sprintf("ssa.%s passes (data, len) of %s", declName(fd), d), call.Pos(), "SliceData(v), SliceLen(v)",
+					"the slice is described by its capacity: Python receives the bytes between len and cap (stale or zero) in addition to the value")
+			}
+		}
+	}
+	if n == 0 {
+		c.Undecided("R19.8", "ssa/python.go slice arguments", 0, "no SliceData argument found")
+	}
+}
+
+// checkMetadataRoundTrip (R13.12): what saveToCache records about a package (link arguments, whether it needs
+// the runtime, whether it needs the Python interpreter) must come back from parseManifestMetadata field by
+// field: a build that reuses the archive relies on it instead of recompiling the package.
+func checkMetadataRoundTrip(c *Ctx, bp *packages.Package) {
+	c.Rule("R13.12", "every field of the cached package metadata is restored when the manifest is parsed", 3)
+	st := structOf(lookupNamed(bp.Types, "cacheArchiveMetadata"))
+	fd := findFunc(bp, "parseManifestMetadata")
+	if st == nil || fd == nil {
+		c.Undecided("R13.12", "build.parseManifestMetadata", 0, "struct or function not found")
+		return
+	}
+	c.nfuncs++
+	assigned := map[string]bool{}
+	ast.Inspect(fd.Body, func(n ast.Node) bool {
+		as, ok := n.(*ast.AssignStmt)
+		if !ok {
+			return true
+		}
+		for i, l := range as.Lhs {
+			se, ok := l.(*ast.SelectorExpr)
+			if !ok {
+				continue
+			}
+			if i < len(as.Rhs) && strings.Contains(exprStr(as.Rhs[i]), "."+se.Sel.Name) {
+				assigned[se.Sel.Name] = true
+			}
+		}
+		return true
+	})
+	// a whole-struct copy also restores every field
+	whole := strings.Contains(strings.ReplaceAll(srcOf(fd.Body), " ", ""), "*meta=*data.Metadata")
+	for i := 0; i < st.NumFields(); i++ {
+		f := st.Field(i).Name()
+		c.Check(assigned[f] || whole, "R13.12", "build.parseManifestMetadata restores "+f, fd.Pos(), "meta."+f+" = data.Metadata."+f,
+			"the field is not restored from the manifest: a build that reuses the cached archive sees the zero value (e.g. NeedPyInit=false: the entry function no longer starts the Python interpreter)")
+	}
+}
+
+// checkPkgKindOrder (R12.4): cl decides "this imported package has no init to call" by an ORDERED comparison
+// (kind >= PkgNoInit); the constants at or above that threshold must be exactly the kinds without an init.
+func checkPkgKindOrder(c *Ctx, cp *packages.Package) {
+	c.Rule("R12.4", "the package kinds at or above the no-init threshold are exactly the kinds that have no initialiser (noinit, decl, link); kinds with an init (normal, llgo, py module) are below it", 1)
+	noInit := map[string]bool{"PkgNoInit": true, "PkgDeclOnly": true, "PkgLinkIR": true, "PkgLinkExtern": true}
+	th, ok := pkgConst(cp.Types, "PkgNoInit")
+	if !ok {
+		c.Undecided("R12.4", "cl package kinds", 0, "PkgNoInit not found")
+		return
+	}
+	// is the ordered comparison still there?
+	ordered := false
+	if fd := findFunc(cp, "context.pkgNoInit"); fd != nil {
+		s := strings.ReplaceAll(srcOf(fd.Body), " ", "")
+		ordered = strings.Contains(s, ">=PkgNoInit")
+	}
+	if !ordered {
+		c.Exists("R12.4", "cl.context.pkgNoInit no longer uses an ordered comparison", 0, "nothing to check")
+		return
+	}
+	var bad []string
+	sc := cp.Types.Scope()
+	for _, name := range sc.Names() {
+		k, isC := sc.Lookup(name).(*types.Const)
+		if !isC || !strings.HasPrefix(name, "Pkg") || len(name) < 4 {
+			continue
+		}
+		if b, isB := k.Type().Underlying().(*types.Basic); !isB || b.Info()&types.IsInteger == 0 {
+			continue
+		}
+		v, ok := constValInt(k)
+		if !ok {
+			continue
+		}
+		if (v >= th) != noInit[name] {
+			bad = append(bad, fmt.Sprintf("%s=%d", name, v))
+		}
+	}
+	c.Check(len(bad) == 0, "R12.4", "cl package kinds vs the no-init threshold", 0, "PkgNoInit <= {NoInit, DeclOnly, LinkIR, LinkExtern}; Normal, LLGo, PyModule below",
+		"kinds on the wrong side of `kind >= PkgNoInit`: "+strings.Join(bad, ", ")+": importers drop the init call of a package that has one (a Python module package is never imported) or call one that does not exist")
+}
+
+func init() {
+	addMutant(Mutant{Prop: "C19", Name: "bytearray-cap-for-len", File: "ssa/python.go",
+		Old: "return b.Call(fn, b.SliceData(v), b.SliceLen(v))", New: "return b.Call(fn, b.SliceData(v), b.SliceCap(v))", Expect: "R19.8"})
+	addMutant(Mutant{Prop: "C13", Name: "metadata-needpyinit-not-restored", File: "internal/build/collect.go",
+		Old: "\t\t\tmeta.NeedRt = data.Metadata.NeedRt\n\t\t\tmeta.NeedPyInit = data.Metadata.NeedPyInit\n", New: "\t\t\tmeta.NeedRt = data.Metadata.NeedRt\n", Expect: "R13.12 build.parseManifestMetadata restores NeedPyInit"})
+	addMutant(Mutant{Prop: "C12", Name: "pymodule-above-noinit-threshold", File: "cl/compile.go",
+		Old: "\tPkgLLGo\n\tPkgPyModule   // py.<module>\n\tPkgNoInit     // noinit: a package that don't need to be initialized\n\tPkgDeclOnly   // decl: a package that only have declarations\n",
+		New: "\tPkgLLGo\n\tPkgNoInit     // noinit: a package that don't need to be initialized\n\tPkgDeclOnly   // decl: a package that only have declarations\n\tPkgPyModule   // py.<module>\n", Expect: "R12.4"})
+}
